@@ -283,6 +283,7 @@ def multi():
           F('UQ_ne_M1', [q, p_, P('r', (4,))], lambda a, b, c: tuple(uq2(a, b) != _uq(c)), '2-valued UnitQuaternion != 1-valued'),
           F('UQ_mul_vec_M', [q, p_, P('v', (3,))], lambda a, b, v: uq2(a, b) * v, '2-valued UnitQuaternion * 3-vector'),
           F('Q_inner_M', [q, p_, P('r', (4,))], lambda a, b, c: q2(a, b).inner(Quaternion(c)), '2-valued Quaternion.inner(1-valued)'),
+          F('Q_inner_MM', [q, p_, P('r', (4,)), P('s', (4,))], lambda a, b, c, d: tuple(np.atleast_1d(q2(a, b).inner(q2(c, d)))), '2-valued Quaternion.inner(2-valued)'),
           ]
     return L
 
